@@ -2,10 +2,13 @@ package main
 
 import (
 	"fmt"
+	"os"
 	"runtime"
 	"strconv"
+	"strings"
 	"sync"
 	"sync/atomic"
+	"time"
 
 	"go.uber.org/zap"
 
@@ -36,9 +39,18 @@ var nWorkers = func() int {
 }()
 
 // parallelDo runs f(i) for i in [0,n) on the worker pool.
+// stallAfter: how long nothing may complete before the stall monitor looks at the stacks.
+var stallAfter = func() time.Duration {
+	if v, err := strconv.Atoi(os.Getenv("VERIF_STALL_S")); err == nil && v > 0 {
+		return time.Duration(v) * time.Second
+	}
+	return 4 * time.Minute
+}()
+
 func parallelDo(n int, f func(i int)) {
 	var wg sync.WaitGroup
 	var next int64 = -1
+	var completed int64
 	for w := 0; w < nWorkers; w++ {
 		wg.Add(1)
 		go func() {
@@ -49,10 +61,49 @@ func parallelDo(n int, f func(i int)) {
 					return
 				}
 				f(i)
+				atomic.AddInt64(&completed, 1)
 			}
 		}()
 	}
-	wg.Wait()
+	finished := make(chan struct{})
+	go func() { wg.Wait(); close(finished) }()
+	// Stall monitor: code under test that deadlocks inside an in-process call
+	// (no child process, no watchdog of its own) would otherwise hang the check
+	// for good. Nothing completed for four minutes AND goroutines of the code
+	// under test parked on a lock: reported as a deadlock, the process ends.
+	last, lastChange := int64(-1), time.Now()
+	for {
+		select {
+		case <-finished:
+			return
+		case <-time.After(5 * time.Second):
+		}
+		if c := atomic.LoadInt64(&completed); c != last {
+			last, lastChange = c, time.Now()
+			continue
+		}
+		if time.Since(lastChange) < stallAfter || currentRun == nil {
+			continue
+		}
+		var locked []string
+		for _, g := range parseDump(vlib.AllStacks()) {
+			if (g.State == "sync.Mutex.Lock" || g.State == "semacquire" || g.State == "sync.RWMutex.Lock" || g.State == "sync.RWMutex.RLock") && g.has("github.com/metal-toolbox/audito-maldito/") {
+				for _, fr := range g.Frames {
+					if strings.Contains(fr, "github.com/metal-toolbox/audito-maldito/") && !strings.Contains(fr, "audito-maldito/verif/") {
+						locked = append(locked, g.State+" in "+fr)
+						break
+					}
+				}
+			}
+		}
+		if len(locked) == 0 {
+			lastChange = time.Now() // slow, not locked up: keep waiting
+			continue
+		}
+		currentRun.Violation(currentRun.Prop+":delivery-deadlocked", fmt.Sprintf("no in-process execution completed for "+stallAfter.String()+"; %d goroutines of the code under test are parked on a lock, e.g. %s", len(locked), locked[0]), map[string]any{"parked": locked})
+		fmt.Printf("SUMMARY property=%s tier=%s deadlock in the code under test: the run cannot continue\n", currentRun.Prop, currentRun.Tier)
+		os.Exit(1)
+	}
 }
 
 // corrStats aggregates what the correlator monitors observed.
